@@ -64,6 +64,46 @@ class _RawMixin:
         pass
 
     on_packet = None
+    no_strict = False           # True: do not offer strict key exchange
+    cleartext_inject = None     # {'after_kexinit'|'before_newkeys': [(type, body)]}
+
+    def _get_extra_kex_algs(self):
+        algs = super()._get_extra_kex_algs()
+        if self.no_strict:
+            algs = [a for a in algs if not a.startswith(b'kex-strict')]
+        return algs
+
+    async def _raw_process_kexinit(self, pkttype, pktid, packet):
+        await _c.SSHConnection._process_kexinit(self, pkttype, pktid, packet)
+        if self.no_strict:
+            # a peer without strict key exchange ignores the other side's offer
+            self._strict_kex = False
+
+    def _force_send(self, pkttype, body):
+        """Put a packet on the wire now, bypassing the deferral of packets
+        which do not belong into the current phase."""
+        saved = (self._kex_complete, self._auth_complete,
+                 self._auth_in_progress)
+        self._kex_complete = self._auth_complete = True
+        try:
+            self.send_packet(pkttype, body)
+        finally:
+            (self._kex_complete, self._auth_complete,
+             self._auth_in_progress) = saved
+
+    def _send_kexinit(self):
+        super()._send_kexinit()
+        first = not self._session_id
+        for t, b in (self.cleartext_inject or {}).get('after_kexinit', ()) \
+                if first else ():
+            self._force_send(t, b)
+
+    def send_newkeys(self, k, h):
+        first = not self._session_id
+        for t, b in (self.cleartext_inject or {}).get('before_newkeys', ()) \
+                if first else ():
+            self._force_send(t, b)
+        super().send_newkeys(k, h)
 
     def process_packet(self, pkttype, pktid, packet):
         if self.raw and (pkttype >= 50 or pkttype in (3, 5, 6, 7)):
@@ -84,6 +124,8 @@ class _RawMixin:
 
 class RawClientConnection(_RawMixin, _c.SSHClientConnection):
     hold_service = False        # True: go raw before SERVICE_REQUEST is sent
+    _packet_handlers = dict(_c.SSHClientConnection._packet_handlers)
+    _packet_handlers[20] = _RawMixin._raw_process_kexinit
 
     def __init__(self, *a, **kw):
         super().__init__(*a, **kw)
@@ -113,7 +155,7 @@ class RawServerConnection(_RawMixin, _c.SSHServerConnection):
         self._channels = _AnyChan(self)
 
 
-async def raw_listen(host, port, on_conn, **kwargs):
+async def raw_listen(host, port, on_conn, no_strict=False, **kwargs):
     """Listen with raw server connections; on_conn(conn) is called for each
     new connection object (before any packet is processed)."""
     loop = asyncio.get_event_loop()
@@ -123,6 +165,7 @@ async def raw_listen(host, port, on_conn, **kwargs):
 
     def factory():
         conn = RawServerConnection(loop, options, wait=None)
+        conn.no_strict = no_strict
         on_conn(conn)
         return conn
 
@@ -130,7 +173,8 @@ async def raw_listen(host, port, on_conn, **kwargs):
                             factory, 'Creating raw SSH listener on')
 
 
-async def raw_connect(host, port, hold_service=False, **kwargs):
+async def raw_connect(host, port, hold_service=False, no_strict=False,
+                      cleartext_inject=None, **kwargs):
     """Connect, run the key exchange and service request, then go raw
     (hold_service: go raw right after NEWKEYS, before SERVICE_REQUEST)."""
     loop = asyncio.get_event_loop()
@@ -144,6 +188,8 @@ async def raw_connect(host, port, hold_service=False, **kwargs):
     def factory():
         conn = RawClientConnection(loop, options, wait='auth')
         conn.hold_service = hold_service
+        conn.no_strict = no_strict
+        conn.cleartext_inject = cleartext_inject
         return conn
 
     return await _c._connect(options, None, loop, 0, None, factory,
